@@ -12,8 +12,9 @@
     extension verification and id->pair mapping validation.
  O4 (K2+K1) process_proposal executes only behind validate_proposal's success edge when an
     extended commit is present; prices are applied only from finalize_block.
- O5 (K5) last-commit cross-check compares round, vote count, and per vote address, power and
-    sig_info of the zipped votes.
+ O5 (K5+K2) last-commit cross-check compares round, vote count, and per vote address, power and
+    sig_info of the zipped votes; every loop iteration takes the equal edge of the address and
+    power comparisons (no early `continue` above them); the vote loops run to exhaustion.
 Not decided: median within [min, max] (numeric property of the aggregation).
 """
 import re
